@@ -21,7 +21,7 @@ THEOREMS = [
     # label keys over a flat index: Series.loc / Frame.loc are run against Index.locToIlocP (driver op index.cloc), about which:
     'SF.C02.bijection', 'SF.C02.slice_inclusive', 'SF.C02.slice_inclusive_descending',
     # ... Index.locToIlocP's label-slice translation = LocMap.map_slice_args / LocMap.loc_to_iloc TRANSLATED from the current source
-    *locmap_hook.BRIDGE_THEOREMS, 'SF.C02LocMap.gen_slice_inclusive', 'SF.C02LocMap.gen_slice_inclusive_descending_partial', 'SF.C02LocMap.gen_slice_absent',
+    *locmap_hook.BRIDGE_THEOREMS, 'SF.C02LocMap.gen_slice_inclusive', 'SF.C02LocMap.gen_slice_inclusive_descending', 'SF.C02LocMap.gen_slice_absent',
     'SF.C02LocMap.gen_element_bijection', 'SF.C02LocMap.gen_list_positions',
     # the FRAME level (Props/C04Frame.lean; model Fr.iloc / Fr.loc = Frame._extract / Frame._extract_loc, driver ops
     # frame.iloc / frame.loc): Key.positions + SF.C03.extract_refines (blocks) + Index._extract_iloc (labels) composed,
@@ -30,7 +30,7 @@ THEOREMS = [
     'SF.C04.frame_iloc_error', 'SF.C04.frame_loc_positional', 'SF.C04.frame_loc_exact', 'SF.C04.frame_loc_element',
     'SF.C03.extract_refines',
 ]
-PARTIAL = [locmap_hook.PARTIAL]
+PARTIAL = []
 CORR_ONLY = ['Frame/Series .iloc with every key kind on both axes (model: Key.positions + list selection in the harness); Frame.iloc / Frame.loc / '
              'Frame.__getitem__ over flat, automatic and date axes (and untouched hierarchical ones) are ALSO run against the Lean Frame model '
              'Fr.iloc / Fr.loc (whole answer: kind, labels and automatic/mapped state of both axes, name, every cell, dtypes, error category); '
